@@ -63,6 +63,7 @@ def run(chk):
     chk.rule("C11.O2", "cutoff/dr -> row count does not truncate a quotient that lands just below the integer", 2)
     chk.rule("C11.O3", "density instance reads nrho/drho/cutoff_rho and the section exposes nr, cutoff, nrho, cutoff_rho", 4)
     chk.rule("C11.O4", "documented defaults: cutoff 10.0, nr 1001, cutoff_rho 100.0, nrho 1001", 4)
+    chk.rule("C11.O4f", "the factory hands the parser's grid (defaults when absent) to the setfl tabulation's constructor slots", 5)
     chk.rule("C11.O5", "grid steps used by the writers: dr = cutoff/(nr-1), drho = cutoff_rho/(nrho-1)", 2)
     chk.attempt("O1", lambda: decision_table(chk, P))
     chk.attempt("O3", lambda: section_binding(chk, P))
